@@ -1,4 +1,171 @@
-/- driver stub (Doc): replaced by the owner of this model group -/
+/- driver for C05 (documents):
+   `run <nf> <nobj> <fileOf_0> … <fileOf_{nobj-1}> <cmd>*`  ->  outputs of all commands, joined by " ; "
+   cmds:  E - | E <cap> | X | F <file> | R <file> | K <file> | H | O <obj> <op>
+   ops :  set <path> S<key> <val> | del <path> S<key> | app <path> <val> | ext <path> <A…> |
+          idx <path> I<int> <val> | pop S<key> <val> | sdf S<key> <val> | upd <O…> | clr |
+          rst <O…> | get S<key> | read
+   path:  P<n> then n segments  k<hex key> | i<int>
+   outputs:  -  |  V <wire value>  |  E:<ErrorName>                                           -/
+import Signac.Json
+import Signac.PyVal
 import Signac.Wire
-open Signac
-def main : IO Unit := driverLoop (fun _ => "bad-op")
+import Signac.Doc
+open Signac Signac.Doc
+
+def errName : Err → String
+  | .keyError => "KeyError"
+  | .indexError => "IndexError"
+  | .typeError => "TypeError"
+  | .attributeError => "AttributeError"
+  | .keyTypeError => "KeyTypeError"
+
+def showOut : Out → String
+  | .none => "-"
+  | .val v => "V " ++ wire v
+  | .err e => "E:" ++ errName e
+
+def parseKey (t : String) : Option String :=
+  match t.toList with
+  | 'S' :: hx => unhex (String.ofList hx)
+  | _ => none
+
+def parseSeg (t : String) : Option Seg :=
+  match t.toList with
+  | 'k' :: hx => (unhex (String.ofList hx)).map Seg.key
+  | 'i' :: n => (String.ofList n).toInt?.map Seg.idx
+  | _ => none
+
+def parseSegs : Nat → List String → Option (List Seg × List String)
+  | 0, ts => some ([], ts)
+  | n+1, t :: ts => do
+    let s ← parseSeg t
+    let (ss, rest) ← parseSegs n ts
+    pure (s :: ss, rest)
+  | _+1, [] => none
+
+def parsePath : List String → Option (List Seg × List String)
+  | t :: ts =>
+    match t.toList with
+    | 'P' :: n => do
+      let n ← (String.ofList n).toNat?
+      parseSegs n ts
+    | _ => none
+  | [] => none
+
+def parseOp : List String → Option (DictOp × List String)
+  | "set" :: ts => do
+    let (p, ts) ← parsePath ts
+    match ts with
+    | k :: ts => do
+      let k ← parseKey k
+      let (v, ts) ← parseValue ts
+      pure (.nset p k v, ts)
+    | [] => none
+  | "del" :: ts => do
+    let (p, ts) ← parsePath ts
+    match ts with
+    | k :: ts => do
+      let k ← parseKey k
+      pure (.ndel p k, ts)
+    | [] => none
+  | "app" :: ts => do
+    let (p, ts) ← parsePath ts
+    let (v, ts) ← parseValue ts
+    pure (.napp p v, ts)
+  | "ext" :: ts => do
+    let (p, ts) ← parsePath ts
+    let (v, ts) ← parseValue ts
+    match v with
+    | .arr xs => pure (.next p xs, ts)
+    | _ => none
+  | "idx" :: ts => do
+    let (p, ts) ← parsePath ts
+    match ts with
+    | i :: ts =>
+      match i.toList with
+      | 'I' :: n => do
+        let i ← (String.ofList n).toInt?
+        let (v, ts) ← parseValue ts
+        pure (.nidx p i v, ts)
+      | _ => none
+    | [] => none
+  | "pop" :: k :: ts => do
+    let k ← parseKey k
+    let (v, ts) ← parseValue ts
+    pure (.pop k v, ts)
+  | "sdf" :: k :: ts => do
+    let k ← parseKey k
+    let (v, ts) ← parseValue ts
+    pure (.setdefault k v, ts)
+  | "upd" :: ts => do
+    let (v, ts) ← parseValue ts
+    match v with
+    | .obj o => pure (.update o, ts)
+    | _ => none
+  | "clr" :: ts => some (.clear, ts)
+  | "rst" :: ts => do
+    let (v, ts) ← parseValue ts
+    match v with
+    | .obj o => pure (.reset o, ts)
+    | _ => none
+  | "get" :: k :: ts => do
+    let k ← parseKey k
+    pure (.get k, ts)
+  | "read" :: ts => some (.read, ts)
+  | _ => none
+
+partial def parseCmds : List String → Option (List Cmd)
+  | [] => some []
+  | "E" :: "-" :: ts => (parseCmds ts).map (Cmd.enter none :: ·)
+  | "E" :: n :: ts => do
+    let n ← n.toNat?
+    let cs ← parseCmds ts
+    pure (.enter (some n) :: cs)
+  | "X" :: ts => (parseCmds ts).map (Cmd.exit :: ·)
+  | "F" :: f :: ts => do
+    let f ← f.toNat?
+    let cs ← parseCmds ts
+    pure (.file f :: cs)
+  | "H" :: ts => (parseCmds ts).map (Cmd.hit :: ·)
+  | "K" :: f :: ts => do
+    let f ← f.toNat?
+    let cs ← parseCmds ts
+    pure (.reopen f :: cs)
+  | "R" :: f :: ts => do
+    let f ← f.toNat?
+    let cs ← parseCmds ts
+    pure (.rm f :: cs)
+  | "O" :: o :: ts => do
+    let o ← o.toNat?
+    let (op, ts) ← parseOp ts
+    let cs ← parseCmds ts
+    pure (.op o op :: cs)
+  | _ => none
+
+def parseNats : Nat → List String → Option (List Nat × List String)
+  | 0, ts => some ([], ts)
+  | n+1, t :: ts => do
+    let x ← t.toNat?
+    let (xs, rest) ← parseNats n ts
+    pure (x :: xs, rest)
+  | _+1, [] => none
+
+def stepDoc (line : String) : String :=
+  match tokens line with
+  | "run" :: nf :: nobj :: ts =>
+    match nf.toNat?, nobj.toNat? with
+    | some nf, some nobj =>
+      match parseNats nobj ts with
+      | some (fo, ts) =>
+        if fo.any (fun f => f ≥ nf) then "bad-value" else
+        match parseCmds ts with
+        | some cmds =>
+          let w := World.init nf (fun o => fo.getD o 0) (fun _ => none)
+          let (_, outs) := run cmds w
+          " ; ".intercalate (outs.map showOut)
+        | none => "bad-op"
+      | none => "bad-value"
+    | _, _ => "bad-value"
+  | _ => "bad-op"
+
+def main : IO Unit := driverLoop stepDoc
